@@ -1,15 +1,20 @@
 ------------------------------ MODULE MCCache ------------------------------
 (* Exhaustive instance of Cache.tla: 3 keys in 2 buckets (keys 1 and 2 share bucket 0 so
-   that the order inside a bucket matters), 2 generations per key with timestamps 1 < 2,
-   entry sizes 1..3 and two watermark settings: <<8, 4>> (sizes 1, 2 cacheable, 3 refused
-   by the high/4 rule) and <<4, 2>> (only size 1 cacheable).  Because of the high/4 rule an
-   insert can only push usage over the high watermark with at least four entries, or after
-   the watermarks were lowered; switching between the two settings gives insert-triggered
-   sweeps with three keys.                                                             *)
+   that the order inside a bucket matters, key 3 is alone in bucket 1 so that the hand
+   matters).  Key 1 has two generations (timestamps 1 < 2), key 2 one, key 3 is only ever
+   cached untagged.  Entry sizes 1..3 and two watermark settings: <<8, 4>> (sizes 1, 2
+   cacheable, 3 refused by the high/4 rule) and <<4, 2>> (only size 1 cacheable).  Because
+   of the high/4 rule an insert can only push usage over the high watermark with at least
+   four entries or after the watermarks were lowered; switching between the two settings
+   gives insert-triggered sweeps with three keys.
+   Bounds (all per-key and independent of the other keys): the generation life cycle is
+   explored for key 1 (LifeKeys), the remove history is kept for keys 1 and 2 (Watch).
+   100 656 distinct states (MCView), 3 187 441 transitions, 15 s on 8 workers.          *)
 EXTENDS Cache
 
 MCKeys == {1, 2, 3}
 MCBucketOf == (1 :> 0) @@ (2 :> 0) @@ (3 :> 1)
+MCGensOf == (1 :> {1, 2}) @@ (2 :> {1}) @@ (3 :> {})
 MCGenTs == (1 :> 1) @@ (2 :> 2)
 MCWMs == {<<8, 4>>, <<4, 2>>}
 MCWM0 == <<8, 4>>
@@ -18,11 +23,11 @@ MCLife == {1}
 (* The generation life cycle only matters to the replacement rule, which is per key: it is
    explored for the keys in LifeKeys; the generations of the other keys stay live.      *)
 CONSTANT LifeKeys
-MCNext == \/ \E k \in Keys, t \in 0 .. NG, sz \in Sizes : Insert(k, t, sz)
-          \/ \E k \in Keys, g \in 0 .. NG : Get(k, g) \/ Remove(k, g)
+MCNext == \/ \E k \in Keys : \E t \in TagsOf(k), sz \in Sizes : Insert(k, t, sz)
+          \/ \E k \in Keys : \E g \in TagsOf(k) : Get(k, g) \/ Remove(k, g)
           \/ Evict \/ Clear
           \/ \E w \in WMs : SetWM(w[1], w[2])
-          \/ \E k \in LifeKeys, g \in Gens : Retire(k, g) \/ DropGen(k, g)
+          \/ \E k \in LifeKeys : \E g \in GensOf[k] : Retire(k, g) \/ DropGen(k, g)
 MCSpec == Init /\ [][MCNext]_cvars
 
 (* `last` only labels the step that was just taken: no action reads it, every property reads
